@@ -87,6 +87,7 @@ class WindEval(Evaluator):
             "np.asarray": lambda ev, n: ev.ev(n.args[0]),
             "np.hstack": self._first_of_display, "np.column_stack": self._first_of_display, "np.concatenate": self._first_of_display,
             "np.sign": self._sign, "np.multiply": lambda ev, n: ev.binop(ast.Mult(), ev.ev(n.args[0]), ev.ev(n.args[1])),
+            "np.where": self._where,
         }
         super().__init__({points_name: pts}, {"self.vertices": verts, "self._vertices": verts,
                                               "self.normal": SV("vec", [Poly.atom(f"n.{c}") for c in "xyz"]),
@@ -100,6 +101,33 @@ class WindEval(Evaluator):
         if isinstance(a0, (ast.Tuple, ast.List)) and a0.elts:
             return ev.ev(a0.elts[0])
         raise NotInFragment("stack")
+
+    @staticmethod
+    def _where(ev, n):
+        """np.where(X == 0, B, X) / np.where(X != 0, X, B) -> tb(X, B);  np.where(X != 0, 1, X | 0) / np.where(X == 0, 0, 1) -> nz(X)."""
+        if len(n.args) != 3:
+            raise NotInFragment("where")
+        cond, a, b = n.args
+        if not (isinstance(cond, ast.Compare) and len(cond.ops) == 1 and isinstance(cond.ops[0], (ast.Eq, ast.NotEq))
+                and isinstance(cond.comparators[0], ast.Constant) and cond.comparators[0].value == 0):
+            raise NotInFragment("where condition")
+        x = ev.ev(cond.left)
+        va, vb = ev.ev(a), ev.ev(b)
+        if isinstance(cond.ops[0], ast.Eq):
+            va, vb = vb, va                      # now: va where X != 0, vb where X == 0
+
+        def same(u, v):
+            return [repr(c) for c in u.comps] == [repr(c) for c in v.comps]
+
+        def const(u, val):
+            return len(u.comps) == 1 and u.comps[0].const_value() is not None and u.comps[0].const_value() == val
+        if same(va, x):
+            if len(vb.comps) != len(x.comps):
+                raise NotInFragment("where shapes")
+            return SV(x.kind, [fatom2("tb", [p, q]) for p, q in zip(x.comps, vb.comps)], x.summed)
+        if const(va, 1) and (same(vb, x) or const(vb, 0)):
+            return SV(x.kind, [fatom("nz", c) for c in x.comps], x.summed)
+        raise NotInFragment("where form")
 
     @staticmethod
     def _sign(ev, n):
